@@ -220,7 +220,13 @@ def scatter_order(rep, k, ix):
         if l[0] == k.fq:
             pass
     st_node = next((n for n in ast.walk(k.node) if isinstance(n, ast.Assign) and n.lineno == lineno and isinstance(n.targets[0], ast.Subscript)), None)
-    if isinstance(X, Rat) and isinstance(Y, Rat) and _vectorised_scatter(rep, k, I, X, Y, idx, val, op, txt, where, data, mask, full):
+    if isinstance(X, Rat) and isinstance(Y, Rat) and (_vectorised_scatter(rep, k, I, X, Y, idx, val, op, txt, where, data, mask, full) or
+                                                     _filtered_enumeration_scatter(rep, k, X, Y, idx, val, op, where, data, mask, full)):
+        return
+    in_loop = st_node is not None and any(isinstance(n, (ast.For, ast.While)) and any(c is st_node for c in ast.walk(n)) for n in ast.walk(k.node))
+    if st_node is not None and not in_loop:
+        # one assignment outside any loop that is not one of the vectorised forms read above: the loop-form rules do not apply
+        rep.unknown("M4.scatter-order", k.fq, "the scatter `%s` is a single vectorised assignment of a form the rule cannot read" % txt, where)
         return
     if st_node is None or not (isinstance(X, Rat) and isinstance(Y, Rat)):
         rep.unknown("M4.scatter-order", k.fq, "cannot read the store `%s`" % txt, where)
@@ -322,6 +328,55 @@ def _vectorised_scatter(rep, k, I, X, Y, idx, val, op, txt, where, data, mask, f
         last = va.args[1][2]
         good = isinstance(last, tuple) and len(last) == 4 and last[0] == "slice" and last[3] is None and same_value(last[1], Rat.const(0)) and \
             (last[2] is None or any(same_value(last[2], c_) for c_ in cnt_forms))
+    rep.check(good, "M4.counter", k.fq + ": k-th active cell receives data[..., k]", "stored value is %s" % nf(val, 120), where)
+    return True
+
+
+def _filtered_enumeration_scatter(rep, k, X, Y, idx, val, op, where, data, mask, full):
+    """the scatter as out[:, :, xs[v], ys[v]] = data[:, :, arange(len(xs[v]))] with (xs, ys) the row-major enumeration of the n x n
+    grid (the two components of numpy.indices((n, n)), flattened) and v = (mask[xs, ys] == 1): a boolean filter keeps the order,
+    so the k-th kept cell is the k-th active cell in row-major order.  Returns False if the store is not of this form."""
+    from ..plf import Rat, Fn
+    from ..interp import mk_cmp
+    xa, ya = X.single_atom(), Y.single_atom()
+    if not (isinstance(xa, Fn) and isinstance(ya, Fn) and xa.name == "getitem" and ya.name == "getitem" and
+            isinstance(xa.args[1], Rat) and isinstance(ya.args[1], Rat) and isinstance(xa.args[0], Rat) and isinstance(ya.args[0], Rat)):
+        return False
+    fx, fy = xa.args[0].single_atom(), ya.args[0].single_atom()
+    if not (isinstance(fx, Fn) and isinstance(fy, Fn) and fx.name == "flatten" and fy.name == "flatten"):
+        return False
+    gx, gy = (fx.args[0].single_atom() if isinstance(fx.args[0], Rat) else None), (fy.args[0].single_atom() if isinstance(fy.args[0], Rat) else None)
+    if not (isinstance(gx, Fn) and isinstance(gy, Fn) and gx.name == "grid" and gy.name == "grid"):
+        return False
+    n0 = Rat.sym("shape(%s)[0]" % k.params[1], ("int", "size"))
+    axis_ok = gx.args[1] == 0 and gy.args[1] == 1 and same_value(gx.args[0], gy.args[0])
+    rep.check(axis_ok, "M4.scatter-order", k.fq + ": cells are visited in row-major order of (x, y)",
+              "the enumerated coordinates are the flattened grids %s and %s: x must run along axis 0 and y along axis 1 of the same grid"
+              % (nf(Rat.atom(gx), 80), nf(Rat.atom(gy), 80)), where,
+              note="the flattened components of numpy.indices enumerate the grid in row-major order; a boolean filter keeps the order")
+    whole = Rat.atom(Fn("arange", (Rat.const(0), n0, Rat.const(1))))
+    rep.check(same_value(gx.args[0], whole), "M4.scatter-order", k.fq + ": loops run over the whole mask",
+              "the enumerated grid is %s x %s, the mask has %s rows and columns" % (nf(gx.args[0], 60), nf(gy.args[0], 60), nf(n0)), where)
+    want = mk_cmp("==", Rat.atom(Fn("getitem", (mask, (xa.args[0], ya.args[0])))), Rat.const(1))
+    rep.check(same_value(xa.args[1], want) and same_value(ya.args[1], want), "M4.scatter-order",
+              k.fq + ": cell (x, y) is filled iff mask[x, y] == 1, tested at the coordinates it is stored at",
+              "the kept cells are those where %s (x) / %s (y)" % (nf(xa.args[1], 100), nf(ya.args[1], 100)), where)
+    rep.check(same_value(idx[:-2], (full, full)) and op == "=", "M4.scatter-order", k.fq + ": stored at [:, :, x, y]",
+              "data is stored at %s" % nf(idx, 120), where)
+    cnt_forms = [Rat.atom(Fn("len", (X,))), Rat.atom(Fn("len", (Y,))), Rat.atom(Fn("count_nonzero", (xa.args[1],))),
+                 Rat.atom(Fn("sum", (xa.args[1], None)))]
+    good = same_value(val, data)
+    va = val.single_atom() if isinstance(val, Rat) else None
+    if isinstance(va, Fn) and va.name == "getitem" and same_value(va.args[0], data) and isinstance(va.args[1], tuple) and len(va.args[1]) == 3 \
+            and same_value(va.args[1][:2], (full, full)):
+        last = va.args[1][2]
+        if isinstance(last, tuple) and len(last) == 4 and last[0] == "slice":
+            good = last[3] is None and same_value(last[1], Rat.const(0)) and (last[2] is None or any(same_value(last[2], c_) for c_ in cnt_forms))
+        elif isinstance(last, Rat):
+            la = last.single_atom()
+            # data[:, :, arange(m)] with m the number of kept cells: columns 0 .. m-1 in order
+            good = isinstance(la, Fn) and la.name == "arange" and len(la.args) == 3 and same_value(la.args[0], Rat.const(0)) and \
+                same_value(la.args[2], Rat.const(1)) and any(same_value(la.args[1], c_) for c_ in cnt_forms)
     rep.check(good, "M4.counter", k.fq + ": k-th active cell receives data[..., k]", "stored value is %s" % nf(val, 120), where)
     return True
 
